@@ -213,7 +213,7 @@ def run(module, cfg, *, env=None, workers=1, extra=(), timeout=3600, spec_dir=No
         else:
             cfgpath = cfg if os.path.isabs(cfg) else os.path.join(spec_dir, "cfg", cfg)
         cmd = ["tlc", "-workers", str(workers), "-metadir", os.path.join(meta, "md"),
-               "-noGenerateSpecTE", "-config", cfgpath]
+               "-noGenerateSpecTE", "-checkpoint", "0", "-config", cfgpath]
         if not deadlock:
             cmd.append("-deadlock")
         if simulate:
